@@ -15,12 +15,17 @@
 //!                  is performed, as with several compaction threads)
 //!   hookperform IDX  the next perform runs pending compaction IDX entirely between the linking of
 //!                  its own outputs and its manifest edit
+//!   racedrop ID IDX  snapshot ID is dropped while another thread performs pending compaction IDX,
+//!                  placed so that the compaction reaches `inc_and(X, hard_link)` for an output X
+//!                  that only the snapshot still references exactly when the reader is inside
+//!                  `dec_and`'s callback for X (count gone, sst/X not yet renamed).  The table lock
+//!                  makes the pin wait for the rename (`window=blocked`); `window=entered` = it did not
 //!   hookdrop ID    the next compaction drops snapshot ID between linking its outputs and applying
 //!                  its manifest edit (the step of a concurrent reader, placed deterministically)
 use std::collections::{BTreeMap, BTreeSet, HashMap, HashSet};
 use std::io::{BufRead, Write};
 use std::ops::Bound;
-use std::sync::{Arc, Mutex};
+use std::sync::{Arc, Condvar, Mutex};
 
 use arrrg::CommandLine;
 use hx::{hex, unhex};
@@ -241,6 +246,70 @@ static PENDING: Mutex<Vec<Option<lsmtk::VerifPending>>> = Mutex::new(Vec::new())
 static HOOK_PERFORM: Mutex<Option<usize>> = Mutex::new(None);
 static HOOK_PERFORM_RESULT: Mutex<Option<String>> = Mutex::new(None);
 
+/// the placed race of `racedrop`: thread B (the compaction) stops before pinning `held_at`; thread
+/// A (the reader's release) lets it go from inside the release callback of the same sst and waits
+/// for it to get past the pin, or for a timeout when the table lock keeps B out
+struct Race {
+    armed: bool,
+    candidates: Vec<String>,
+    held_at: Option<String>,
+    go: bool,
+    pinned: bool,
+    b_done: Option<String>,
+    window: &'static str,
+}
+static RACE: Mutex<Race> = Mutex::new(Race {
+    armed: false,
+    candidates: Vec::new(),
+    held_at: None,
+    go: false,
+    pinned: false,
+    b_done: None,
+    window: "none",
+});
+static RACE_CV: Condvar = Condvar::new();
+const RACE_WINDOW_MS: u64 = 400;
+
+fn race_point(name: &'static str, x: &str) {
+    let mut r = RACE.lock().unwrap();
+    if !r.armed {
+        return;
+    }
+    match name {
+        "compaction_finish:before_pin" => {
+            if r.held_at.is_none() && !r.go && r.candidates.iter().any(|c| c == x) {
+                r.held_at = Some(x.to_string());
+                RACE_CV.notify_all();
+                while !r.go {
+                    r = RACE_CV.wait(r).unwrap();
+                }
+            }
+        }
+        "compaction_finish:pinned" => {
+            if r.held_at.as_deref() == Some(x) {
+                r.pinned = true;
+                RACE_CV.notify_all();
+            }
+        }
+        "release_sst:before_rename" => {
+            if r.held_at.as_deref() == Some(x) && !r.go {
+                r.go = true;
+                RACE_CV.notify_all();
+                let deadline = std::time::Instant::now() + std::time::Duration::from_millis(RACE_WINDOW_MS);
+                while !r.pinned {
+                    let now = std::time::Instant::now();
+                    if now >= deadline {
+                        break;
+                    }
+                    r = RACE_CV.wait_timeout(r, deadline - now).unwrap().0;
+                }
+                r.window = if r.pinned { "entered" } else { "blocked" };
+            }
+        }
+        _ => {}
+    }
+}
+
 fn main() {
     let args: Vec<String> = std::env::args().collect();
     if std::env::var("C08_LOUD").is_err() {
@@ -314,6 +383,7 @@ fn main() {
             }
         }
     })));
+    lsmtk::verif_set_sst_point_hook(Some(Arc::new(race_point)));
     let mut cursors: HashMap<String, Box<dyn Cursor + 'static>> = HashMap::new();
     let mut seen = HashSet::new();
     let stdin = std::io::stdin();
@@ -419,6 +489,63 @@ fn main() {
                     match HOOK_PERFORM_RESULT.lock().unwrap().take() {
                         Some(inner) => format!("{r} inner={}", inner.replace(' ', "_")),
                         None => r,
+                    }
+                }
+                "racedrop" => {
+                    let id = t[1].to_string();
+                    let idx: usize = t[2].parse().unwrap();
+                    let snap = SNAPS.lock().unwrap().as_mut().unwrap().remove(&id);
+                    let p = PENDING.lock().unwrap().get_mut(idx).and_then(|x| x.take());
+                    match (snap, p) {
+                        (Some(snap), Some(p)) => {
+                            // ssts that go to the trash when this snapshot lets go: it is the only
+                            // holder of its version and the version is their only reference
+                            let refs: HashMap<String, u64> = kvs.verif_tree().verif_refs().into_iter().collect();
+                            let candidates: Vec<String> = if snap.verif_strong_count() == 1 {
+                                snap.verif_setsums().into_iter().filter(|x| refs.get(x) == Some(&1)).collect()
+                            } else {
+                                vec![]
+                            };
+                            let ncand = candidates.len();
+                            {
+                                let mut r = RACE.lock().unwrap();
+                                *r = Race { armed: true, candidates, held_at: None, go: false, pinned: false, b_done: None, window: "none" };
+                            }
+                            let b = std::thread::spawn(move || {
+                                let res = std::panic::catch_unwind(std::panic::AssertUnwindSafe(|| kvs.verif_tree().verif_compaction_perform(p)));
+                                let msg = match res {
+                                    Ok(Ok(())) => "ok".to_string(),
+                                    Ok(Err(e)) => format!("err_{}", err_class(&e)),
+                                    Err(_) => "PANIC".to_string(),
+                                };
+                                let mut r = RACE.lock().unwrap();
+                                r.b_done = Some(msg);
+                                RACE_CV.notify_all();
+                            });
+                            {
+                                let mut r = RACE.lock().unwrap();
+                                while r.held_at.is_none() && r.b_done.is_none() {
+                                    r = RACE_CV.wait(r).unwrap();
+                                }
+                            }
+                            let strong = snap.verif_strong_count();
+                            drop(snap);
+                            {
+                                let mut r = RACE.lock().unwrap();
+                                r.go = true;
+                                RACE_CV.notify_all();
+                                while r.b_done.is_none() {
+                                    r = RACE_CV.wait(r).unwrap();
+                                }
+                            }
+                            let _ = b.join();
+                            let mut r = RACE.lock().unwrap();
+                            r.armed = false;
+                            format!("RACEDROP perform={} candidates={} held={} window={} strong={}",
+                                r.b_done.clone().unwrap_or_default().replace(' ', "_"), ncand,
+                                r.held_at.clone().unwrap_or("-".to_string()), r.window, strong)
+                        }
+                        _ => "RACEDROP err no-such-snapshot-or-pending".to_string(),
                     }
                 }
                 "hookperform" => {
